@@ -49,6 +49,9 @@ def check(run):
     # every container the generic code can be instantiated with hands out its elements in logical order
     from common import dep_backends as _dep_backends
     _dep_backends(run)
+    # the floor below which a variance counts as zero
+    import casrules as _cr
+    _cr.check_eps(run, run.facts('base'))
     return run.finish(
         'other',
         'Winsorize: each of the three arms returns iter_cast::<f64>().vclip(min, max) (or the '
